@@ -313,8 +313,8 @@ theorem window_offset_arithmetic (kept : List Nat) (d m : Nat) :
   window_triples kept d m
 
 /-- **T6** a CDS without a complete codon (fewer than three kept positions): no codons, empty protein, no start codon
-    (repaired F-C19e: `false`, not StopIteration), no in-frame stop; `has_valid_stop` is the one predicate that still
-    refuses (`Codon("")` raises ValueError), which `okHasValidStop` accepts. -/
+    (repaired F-C19e: `false`, not StopIteration), no in-frame stop, no valid stop
+    (repaired 7757ccc: `false`, not ValueError from `Codon("")`). -/
 theorem codonless_cds_answers (c : CDS) (h : WFCDS c)
     (hshallow : shallowTrim (exonWalk c.loc (specFrames c)) = true)
     (hkept : c.loc.blocks.length = 1 ∨ cdsKept c.loc (specFrames c) ≠ [])
@@ -326,7 +326,7 @@ theorem codonless_cds_answers (c : CDS) (h : WFCDS c)
     hasCanonicalStartCodon c = .ok false ∧
     hasStartCodonIn c table = .ok false ∧
     hasInFrameStop c = .ok false ∧
-    ans (hasValidStop c) = none :=
+    hasValidStop c = .ok false :=
   ⟨codonless_sequence c h hshallow hkept chrom hs hless,
    codonless_answers c h hshallow hkept chrom hs hless trunc strict table⟩
 
